@@ -341,6 +341,56 @@ pub extern "C" fn getpid() -> libc::pid_t {
 }
 
 // ---------------------------------------------------------------------------------------------
+// S10 (atomic-granular tier only): futex waits of simulated threads
+// ---------------------------------------------------------------------------------------------
+//
+// In the instrumented build a simulated thread can be parked at an atomic operation INSIDE a
+// critical section; the next thread to run would then block in the kernel on that lock while it
+// holds the baton.  std's locks, condition variables and thread parking enter the kernel through
+// libc's `syscall(SYS_futex, ..)`, so that symbol is defined here: a futex WAIT of the baton
+// holder on a word that is not one of the simulator's own becomes a scheduling point (the thread
+// yields as "spinning" and returns to its retry loop); everything else goes to the kernel.
+
+#[cfg(feature = "atomic-points")]
+#[inline(always)]
+unsafe fn raw_syscall6(n: libc::c_long, a1: libc::c_long, a2: libc::c_long, a3: libc::c_long, a4: libc::c_long, a5: libc::c_long, a6: libc::c_long) -> libc::c_long {
+    let ret: libc::c_long;
+    core::arch::asm!("syscall", inlateout("rax") n => ret, in("rdi") a1, in("rsi") a2, in("rdx") a3, in("r10") a4, in("r8") a5, in("r9") a6, lateout("rcx") _, lateout("r11") _, options(nostack));
+    ret
+}
+
+#[cfg(feature = "atomic-points")]
+pub static FUTEX_YIELDS: AtomicU64 = AtomicU64::new(0);
+
+/// Interposes libc's `syscall` (atomic-granular build only).
+///
+/// # Safety
+/// The arguments must be valid for the requested system call (the libc contract).
+#[cfg(feature = "atomic-points")]
+#[no_mangle]
+pub unsafe extern "C" fn syscall(n: libc::c_long, a1: libc::c_long, a2: libc::c_long, a3: libc::c_long, a4: libc::c_long, a5: libc::c_long, a6: libc::c_long) -> libc::c_long {
+    if n == libc::SYS_futex {
+        let cmd = (a2 as i32) & !(libc::FUTEX_PRIVATE_FLAG | libc::FUTEX_CLOCK_REALTIME);
+        if (cmd == libc::FUTEX_WAIT || cmd == libc::FUTEX_WAIT_BITSET) && rayon_core::sim::is_baton_holder() && !rayon_core::sim::owns_address(a1 as usize) {
+            if (*(a1 as *const std::sync::atomic::AtomicU32)).load(Ordering::SeqCst) != a3 as u32 {
+                *libc::__errno_location() = libc::EAGAIN;
+                return -1;
+            }
+            if rayon_core::sim::blocked_point() {
+                FUTEX_YIELDS.fetch_add(1, Ordering::Relaxed);
+                return 0;
+            }
+        }
+    }
+    let r = raw_syscall6(n, a1, a2, a3, a4, a5, a6);
+    if (-4095..0).contains(&r) {
+        *libc::__errno_location() = (-r) as libc::c_int;
+        return -1;
+    }
+    r
+}
+
+// ---------------------------------------------------------------------------------------------
 // S8: stack placement
 // ---------------------------------------------------------------------------------------------
 //
